@@ -26,6 +26,8 @@ def fresh(tags, max_bytes=None):
         typ, ln = spec[0], spec[1]
         cls = TYPES[typ]
         zero = '' if typ in ('SSTRING', 'STRING') else (0.0 if typ in ('REAL', 'LREAL') else 0)
+        if len(spec) > 3:
+            zero = spec[3]                    # the initial element value as the configuration gives it (eg. the int 0 for a REAL tag)
         default = zero if ln is None else [zero] * ln
         ent = cpppo.dotdict(attribute=device.Attribute(name, cls, default=default), error=0)
         if len(spec) > 2 and spec[2]:
